@@ -6,6 +6,7 @@ package main
 
 import (
 	"context"
+	"encoding/json"
 	"errors"
 	"fmt"
 	"io"
@@ -914,6 +915,9 @@ type runner struct {
 	c     *lib.Ctx
 	defs  []string // Coq definitions of the trees, shared by all case files
 	model bool     // emit model cases for the current tree (false: oracle only)
+
+	fixedSeqs   bool // run the fixed ChangeDir history on the tree
+	seqsPerTree int  // generated histories per tree
 }
 
 // emit records one operation: a model case, or an oracle-only evaluation.
@@ -1212,6 +1216,16 @@ func (rn *runner) tree(r *lib.Rng, root *gdir, wellFormed, loopFree bool, label 
 		}
 	}
 
+	// ---- views are values: histories of ChangeDir and queries on several views of this tree
+	if rn.fixedSeqs {
+		w0, ops := fixedSeq(root)
+		rn.seq(b, root, coqT, label, w0, ops, wellFormed, nontrivial)
+	}
+	for i := 0; i < rn.seqsPerTree; i++ {
+		w0, ops := genSeq(r, root)
+		rn.seq(b, root, coqT, label, w0, ops, wellFormed, nontrivial)
+	}
+
 	// ---- O5: testing/fstest.TestFS on well-formed, loop-free, dangling-free trees
 	if wellFormed && loopFree {
 		expected := []string{}
@@ -1245,6 +1259,314 @@ func (rn *runner) tree(r *lib.Rng, root *gdir, wellFormed, loopFree bool, label 
 			}
 		}
 	}
+}
+
+// ---------------------------------------------------------------------------------------------
+// views are values: histories of ChangeDir / Open / Stat / ReadDir on the views of ONE tree.
+// A view is identified by its handle = the index of the *CASFileSystem object in creation order
+// (pointer identity decides whether ChangeDir returned a new object or one that already exists).
+
+type seqOp struct {
+	Op   string `json:"op"`   // chdir open stat readdir
+	View int    `json:"view"` // handle of the view the call is made on
+	Arg  string `json:"arg"`  // directory (chdir) or name
+	Ns   []int  `json:"ns,omitempty"`
+}
+
+func (o seqOp) coq() string {
+	switch o.Op {
+	case "chdir":
+		return lib.App("VChdir", lib.Nat(o.View), lib.Str(o.Arg))
+	case "open":
+		return lib.App("VAsk", lib.Nat(o.View), lib.App("QOpen", lib.Str(o.Arg)))
+	case "stat":
+		return lib.App("VAsk", lib.Nat(o.View), lib.App("QStat", lib.Str(o.Arg)))
+	}
+	zs := []string{}
+	for _, n := range o.Ns {
+		zs = append(zs, lib.Z(int64(n)))
+	}
+	return lib.App("VAsk", lib.Nat(o.View), lib.App("QReadDir", lib.Str(o.Arg), lib.List(zs)))
+}
+
+func dirAt(root *gdir, p string) *gdir {
+	d := root
+	if p == "" || p == "." {
+		return d
+	}
+	for _, c := range strings.Split(p, "/") {
+		var nx *gdir
+		for _, x := range d.Dirs {
+			if x.Name == c {
+				nx = x
+			}
+		}
+		if nx == nil {
+			return nil
+		}
+		d = nx
+	}
+	return d
+}
+
+func childNames(d *gdir, max int) []string {
+	out := []string{}
+	for _, x := range d.Dirs {
+		out = append(out, x.Name)
+	}
+	for _, x := range d.Files {
+		out = append(out, x.Name)
+	}
+	for _, x := range d.Links {
+		out = append(out, x.Name)
+	}
+	if len(out) > max {
+		out = out[:max]
+	}
+	return out
+}
+
+// genSeq generates a history: ChangeDir calls into directories of the tree (and a few odd arguments), and
+// queries that go back to OLDER views after a ChangeDir at least as often as to the newest one.
+func genSeq(r *lib.Rng, root *gdir) (wdSpec, []seqOp) {
+	var dirs []entry
+	allDirs(root, "", &dirs)
+	dirArg := func() string {
+		d := lib.Pick(r, dirs).path
+		if d == "" {
+			d = "."
+		}
+		switch r.Intn(10) {
+		case 0:
+			return "./" + d
+		case 1:
+			return d + "/"
+		case 2:
+			return lib.Pick(r, []string{"nope", "", "/", ".."})
+		case 3:
+			return d + "/../" + filepath.Base(d)
+		}
+		return d
+	}
+	w0 := wdSpec{"new", "."}
+	if r.Chance(1, 5) {
+		w0 = wdSpec{lib.Pick(r, []string{"new", "chdir"}), dirArg()}
+	}
+	wds := []string{w0.Dir} // the directory each view (in the unchanged semantics) looks at
+	ops := []seqOp{}
+	n := r.Range(4, 10)
+	for i := 0; i < n; i++ {
+		if len(wds) < 5 && (r.Chance(1, 3) || i == 1) {
+			v := 0
+			if r.Chance(1, 2) {
+				v = r.Intn(len(wds))
+			}
+			a := dirArg()
+			ops = append(ops, seqOp{Op: "chdir", View: v, Arg: a})
+			wds = append(wds, a)
+			continue
+		}
+		v := 0
+		if r.Chance(1, 2) {
+			v = r.Intn(len(wds))
+		}
+		if r.Chance(1, 30) {
+			v = len(wds) + r.Intn(2)
+		}
+		names := []string{".", "", "..", "nope"}
+		names = append(names, childNames(root, 4)...)
+		if v < len(wds) {
+			if d := dirAt(root, filepath.Clean(wds[v])); d != nil {
+				names = append(names, childNames(d, 6)...)
+				names = append(names, childNames(d, 6)...)
+			}
+		}
+		if d := lib.Pick(r, dirs); d.path != "" {
+			names = append(names, d.path)
+			for _, c := range childNames(d.dir, 2) {
+				names = append(names, d.path+"/"+c)
+			}
+		}
+		op := seqOp{Op: lib.Pick(r, []string{"open", "open", "stat", "stat", "readdir"}), View: v, Arg: lib.Pick(r, names)}
+		if op.Op == "readdir" {
+			op.Ns = lib.Pick(r, [][]int{{-1}, {1, 1, -1}, {2, 0, 2}, {}, {1, 1, 1, 1}})
+			if r.Chance(1, 2) {
+				op.Arg = "."
+			}
+		}
+		ops = append(ops, op)
+	}
+	return w0, ops
+}
+
+// fixedSeq: the smallest history that tells a view that is a value from one that is re-rooted by ChangeDir.
+func fixedSeq(root *gdir) (wdSpec, []seqOp) {
+	sub, first := "nope", "."
+	if len(root.Dirs) > 0 {
+		sub = root.Dirs[0].Name
+	}
+	if ns := childNames(root, 1); len(ns) > 0 {
+		first = ns[0]
+	}
+	return wdSpec{"new", "."}, []seqOp{{Op: "chdir", View: 0, Arg: sub}, {Op: "stat", View: 0, Arg: first}, {Op: "open", View: 0, Arg: "."},
+		{Op: "open", View: 1, Arg: "."}, {Op: "chdir", View: 1, Arg: "."}, {Op: "open", View: 2, Arg: "."},
+		{Op: "readdir", View: 0, Arg: ".", Ns: []int{-1}}, {Op: "stat", View: 1, Arg: first}}
+}
+
+type probe struct {
+	Name string  `json:"name"`
+	Open obsOpen `json:"open"`
+	Stat obsStat `json:"stat"`
+}
+
+func snapshot(fsys *remotefs.CASFileSystem, names []string) []probe {
+	out := make([]probe, len(names))
+	for i, nm := range names {
+		out[i] = probe{nm, doOpen(fsys, nm), doStat(fsys, nm)}
+	}
+	return out
+}
+
+func canon(p probe) string {
+	data, err := json.Marshal(p)
+	if err != nil {
+		panic(err)
+	}
+	return string(data)
+}
+
+func firstDiff(a, b []probe) int {
+	for i := range a {
+		if canon(a[i]) != canon(b[i]) {
+			return i
+		}
+	}
+	return -1
+}
+
+// seq runs one history on the real code, emits it as ONE model case (model: the store machine `run`), and
+// evaluates the oracle: every view answers a fixed set of probes exactly as it did when it was created,
+// after every single operation of the history; a view returned by ChangeDir(d) answers as New(c, tree, d).
+func (rn *runner) seq(b *built, root *gdir, coqT, label string, w0 wdSpec, ops []seqOp, wellFormed, nontrivial bool) {
+	c := rn.c
+	// the probes: the names in the root and in every directory the history changes into
+	names := []string{".", "nope"}
+	seenName := map[string]bool{".": true, "nope": true}
+	addNames := func(d *gdir) {
+		if d == nil {
+			return
+		}
+		for _, nm := range childNames(d, 5) {
+			if !seenName[nm] {
+				seenName[nm] = true
+				names = append(names, nm)
+			}
+		}
+	}
+	addNames(root)
+	addNames(dirAt(root, filepath.Clean(w0.Dir)))
+	for _, op := range ops {
+		if op.Op == "chdir" {
+			addNames(dirAt(root, filepath.Clean(op.Arg)))
+		}
+	}
+	if len(names) > 14 {
+		names = names[:14]
+	}
+
+	views := []*remotefs.CASFileSystem{w0.fs(b)}
+	base := [][]probe{nil}
+	if wellFormed {
+		base[0] = snapshot(views[0], names)
+	}
+	obs := []string{}
+	obsJS := []any{}
+	failed := false
+	nChdir := 0
+	for k, op := range ops {
+		if op.View >= len(views) {
+			obs = append(obs, "BNoView")
+			obsJS = append(obsJS, "no-such-view")
+			continue
+		}
+		v := views[op.View]
+		switch op.Op {
+		case "chdir":
+			nChdir++
+			nv := v.ChangeDir(op.Arg)
+			h := -1
+			for i, x := range views {
+				if x == nv {
+					h = i
+				}
+			}
+			if h < 0 {
+				h = len(views)
+				views = append(views, nv)
+				if wellFormed {
+					base = append(base, snapshot(nv, names))
+					// the new view answers as a view made by New for the same (clean) directory
+					if filepath.Clean(op.Arg) == op.Arg {
+						c.Oracle()
+						t := &pb.Tree{Root: b.tree.Root, Children: append([]*pb.Directory{}, b.tree.Children...)}
+						want := snapshot(remotefs.New(b.cas, t, op.Arg), names)
+						if i := firstDiff(want, base[h]); i >= 0 && !failed {
+							failed = true
+							c.Fail("changedir-view-differs-from-new", fmt.Sprintf("ChangeDir(%q) gives a view whose Open/Stat(%q) differ from those of New(c, tree, %q)", op.Arg, names[i], op.Arg),
+								map[string]any{"tree": root, "op": "viewseq", "wd0": w0, "seq": ops[:k+1], "probe": names[i], "want": want[i], "got": base[h][i]})
+						}
+					}
+				}
+			}
+			obs = append(obs, lib.App("BView", lib.Nat(h)))
+			obsJS = append(obsJS, map[string]any{"view": h})
+		case "open":
+			o := doOpen(v, op.Arg)
+			obs = append(obs, lib.App("BOpen", o.coq()))
+			obsJS = append(obsJS, o)
+		case "stat":
+			st := doStat(v, op.Arg)
+			obs = append(obs, lib.App("BStat", st.coq()))
+			obsJS = append(obsJS, st)
+		case "readdir":
+			pages, ok, pan := doReadDir(v, op.Arg, op.Ns)
+			res := "None"
+			if pan {
+				res = lib.Some("Panic")
+			} else if ok {
+				items := []string{}
+				for _, pg := range pages {
+					items = append(items, lib.Pair(coqInfos(pg.Entries), lib.Bool(pg.EOF)))
+				}
+				res = lib.Some(lib.App("Ok", lib.List(items)))
+			}
+			obs = append(obs, lib.App("BReadDir", res))
+			obsJS = append(obsJS, map[string]any{"pages": pages, "dir": ok, "panicked": pan})
+		}
+		// the oracle: no operation changes what any existing view answers
+		if wellFormed && !failed {
+			for i, x := range views {
+				c.Oracle()
+				now := snapshot(x, names)
+				if j := firstDiff(base[i], now); j >= 0 {
+					failed = true
+					cls := "view-changed-by-" + map[string]string{"chdir": "changedir", "open": "open", "stat": "stat", "readdir": "readdir"}[op.Op]
+					c.Fail(cls, fmt.Sprintf("view %d answers Open/Stat(%q) differently after %s(view %d, %q): a view must stay faithful to its tree whatever is done to it or to other views",
+						i, names[j], op.Op, op.View, op.Arg),
+						map[string]any{"tree": root, "op": "viewseq", "wd0": w0, "seq": ops[:k+1], "view": i, "probe": names[j], "before": base[i][j], "after": now[j]})
+					break
+				}
+			}
+		}
+	}
+	opsCoq := make([]string, len(ops))
+	for i, op := range ops {
+		opsCoq[i] = op.coq()
+	}
+	c.Hist("viewseq_changedirs", fmt.Sprint(nChdir))
+	c.Hist("viewseq_views", fmt.Sprint(len(views)))
+	rn.emit(lib.App("CSeq", coqT, w0.coq(), lib.List(opsCoq), lib.List(obs)),
+		map[string]any{"tree": root, "op": "viewseq", "wd0": w0, "seq": ops, "observed": obsJS}, label+"|seq|"+coqT+"|"+fmt.Sprint(w0, ops), nontrivial && nChdir > 0)
 }
 
 // finish hands the tree definitions to the case files (they are shared by all cases of a tree).
@@ -1337,7 +1659,8 @@ func main() {
 		c.Rule("REAPI Trees built from generated abstract trees (depth<=3, width<=4, files with blobs in an in-memory CAS, node properties) plus symlinks of stated flavours " +
 			"(good, to-dir, chains, dangling, escaping, absolute, loops of length 1-3 incl. across directories, empty/dot targets, targets through a symlinked directory, lexically odd targets); " +
 			"corpus trees first (past witnesses, chains of 39-42 links, duplicate names, missing blob/child, odd names). Per tree: Open and Stat of every node path and of boundary path shapes " +
-			"(leading/trailing slash, ./, //, .., nonexistent, below a file), ReadDir call sequences on every directory, other working directories via New and ChangeDir. " +
+			"(leading/trailing slash, ./, //, .., nonexistent, below a file), ReadDir call sequences on every directory, other working directories via New and ChangeDir; " +
+			"histories of 4-10 calls on up to 5 views of one tree (ChangeDir into its directories and odd arguments from any view, then Open/Stat/ReadDir on older and newer views; one fixed and two generated histories per tree). " +
 			"distinct = distinct (tree, operation, name); non-trivial = tree with >=2 entries (ReadDir: directory with >=2 entries; path functions: path with a slash)")
 		rn := &runner{c: c}
 
@@ -1358,10 +1681,20 @@ func main() {
 		}
 
 		var replay struct {
-			Tree *gdir  `json:"tree"`
-			Op   string `json:"op"`
+			Tree *gdir   `json:"tree"`
+			Op   string  `json:"op"`
+			Wd0  wdSpec  `json:"wd0"`
+			Seq  []seqOp `json:"seq"`
 		}
+		rn.fixedSeqs, rn.seqsPerTree = true, 2
 		if c.ReadReplay(&replay) && replay.Tree != nil {
+			if replay.Op == "viewseq" {
+				// the recorded history first, as a model case and under the oracle
+				rn.model = true
+				b := buildTree(replay.Tree)
+				rn.defs = append(rn.defs, fmt.Sprintf("Definition t%d : tree := %s.", len(rn.defs), b.coqTree()))
+				rn.seq(b, replay.Tree, fmt.Sprintf("t%d", len(rn.defs)-1), "replay", replay.Wd0, replay.Seq, true, true)
+			}
 			rn.tree(c.Rng.Fork(), replay.Tree, true, replay.Op == "testfs", "replay", 40, true)
 			rn.finish()
 			return
